@@ -16,11 +16,13 @@ import StraxModel.Model.Basic
   Timeouts are not transitions: the harness delivers them only after it has recorded a deadlock.
 
   Deviations from the text of the code, all extensionally equal on the observables:
-  * `have_read[i]` and the generator-local `next_number` are one field `next[i] = have_read[i] + 1`
-    (they are assigned together); the driver prints `next[i] - 1`.
+  * `have_read[i]` and the generator-local `next_number` are one field `subs[i].next = have_read[i] + 1`
+    (they are assigned together); the driver prints `next - 1`.  The three per-subscriber lists of the
+    code are one list of records `subs`.
   * the heap is a list in insertion order; garbage collection `while heap and min(have_read) >= lowest: pop`
     is `filter (minNext ≤ number)`; `x <= lowest` is `∀ e ∈ heap, x ≤ e.number`.
-  * message payloads are naturals; `StopIteration` (sent by `close`) is the message `stop`.
+  * message payloads are naturals; `StopIteration` (sent by `close`) is the message `stop`; the ghost log
+    `got` keeps the delivered messages themselves (a delivered future stands for its result).
   One sender per mailbox (as everywhere in strax), so the number resolved when a `send` starts waiting
   is kept in the program counter.
 -/
@@ -34,27 +36,40 @@ inductive Msg where
   | stop
 deriving Repr, DecidableEq, Inhabited
 
+/-- which "somebody has not woken up yet" test `_can_fetch` uses -/
+inductive GateRule where
+  | lowest    -- the code today: `len(heap) and any(x is not None and x <= lowest for x in waiting_for)`  (defect D6)
+  | hasMsg    -- candidate fix:  `any(x is not None and self._has_msg(x) for x in waiting_for)`
+deriving Repr, DecidableEq
+
+/-- the per-subscriber entries of `_subscribers_have_read`, `_subscriber_waiting_for`,
+`_subscriber_can_drive`, plus the subscriber's waiter flag on `_read_condition` -/
+structure Sub where
+  next : Nat                  -- `have_read + 1` = the generator's `next_number`
+  waitingFor : Option Nat
+  canDrive : Bool
+  flag : Option Bool          -- none = not waiting, some false = blocked, some true = notified
+deriving Repr, DecidableEq
+
 structure MB where
   cap : Option Nat                  -- `max_messages`; none = infinite (stand-alone lazy mailbox)
   lazy : Bool
+  gateRule : GateRule
   heap : List (Nat × Msg)           -- `_mailbox`
-  next : List Nat                   -- `_subscribers_have_read[i] + 1`
-  waitingFor : List (Option Nat)    -- `_subscriber_waiting_for`
-  canDrive : List Bool              -- `_subscriber_can_drive`
+  subs : List Sub
   nSent : Nat
   closed : Bool
   killed : Bool
   forceKilled : Bool
-  readFlag : List (Option Bool)     -- waiter of `_read_condition`, per subscriber
   writeFlag : Option Bool           -- the sender waiting on `_write_condition`
   fetchFlag : Option Bool           -- the sender waiting on `_fetch_new_condition`
 deriving Repr, DecidableEq
 
-/-- `min(l)`, 0 for the empty list (`start` refuses mailboxes without subscribers) -/
-def minNext : List Nat → Nat
+/-- `min(have_read) + 1`, 0 without subscribers (`start` refuses such mailboxes) -/
+def minNext : List Sub → Nat
   | [] => 0
-  | [a] => a
-  | a :: b :: r => min a (minNext (b :: r))
+  | [a] => a.next
+  | a :: b :: r => min a.next (minNext (b :: r))
 
 def hasNum (heap : List (Nat × Msg)) (n : Nat) : Bool := heap.any (fun e => e.1 == n)
 
@@ -72,24 +87,28 @@ def collect (heap : List (Nat × Msg)) : Nat → Nat → List Msg
     | none => []
 
 /-- garbage collection after a read: drop everything every subscriber has read -/
-def gc (heap : List (Nat × Msg)) (next : List Nat) : List (Nat × Msg) :=
-  heap.filter (fun e => decide (minNext next ≤ e.1))
+def gc (heap : List (Nat × Msg)) (subs : List Sub) : List (Nat × Msg) :=
+  heap.filter (fun e => decide (minNext subs ≤ e.1))
 
 def MB.canWrite (mb : MB) : Bool :=
   (match mb.cap with
    | none => true
    | some c => decide (mb.heap.length < c)) || mb.killed
 
-/-- first clause of `_can_fetch`: somebody still waits for a message `<=` the lowest one we hold -/
+/-- is a subscriber with this `waiting_for` entry one that "has not woken up yet"? -/
+def staleTest (rule : GateRule) (heap : List (Nat × Msg)) : Option Nat → Bool
+  | none => false
+  | some x =>
+    match rule with
+    | .lowest => !heap.isEmpty && heap.all (fun e => decide (x ≤ e.1))   -- `len(heap) and x <= lowest`
+    | .hasMsg => hasNum heap x                                           -- `self._has_msg(x)`
+
+/-- first clause of `_can_fetch`: somebody has been sent what he waits for but has not woken up yet -/
 def MB.staleWaiter (mb : MB) : Bool :=
-  !mb.heap.isEmpty && mb.waitingFor.any (fun w =>
-    match w with
-    | some x => mb.heap.all (fun e => decide (x ≤ e.1))
-    | none => false)
+  mb.subs.any (fun sub => staleTest mb.gateRule mb.heap sub.waitingFor)
 
 /-- second clause of `_can_fetch`: some driving subscriber waits -/
-def MB.driverWaits (mb : MB) : Bool :=
-  (mb.canDrive.zip mb.waitingFor).any (fun p => p.1 && p.2.isSome)
+def MB.driverWaits (mb : MB) : Bool := mb.subs.any (fun sub => sub.canDrive && sub.waitingFor.isSome)
 
 def MB.canFetch (mb : MB) : Bool :=
   if mb.killed then true
@@ -100,7 +119,9 @@ def notifyFlag : Option Bool → Option Bool
   | none => none
   | some _ => some true
 
-def MB.notifyRead (mb : MB) : MB := { mb with readFlag := mb.readFlag.map notifyFlag }
+def Sub.notify (sub : Sub) : Sub := { sub with flag := notifyFlag sub.flag }
+
+def MB.notifyRead (mb : MB) : MB := { mb with subs := mb.subs.map Sub.notify }
 def MB.notifyWrite (mb : MB) : MB := { mb with writeFlag := notifyFlag mb.writeFlag }
 def MB.notifyFetch (mb : MB) : MB := { mb with fetchFlag := notifyFlag mb.fetchFlag }
 /-- `if self.lazy and self._can_fetch(): self._fetch_new_condition.notify_all()` -/
@@ -130,19 +151,16 @@ deriving Repr, DecidableEq
 def MB.push (mb : MB) (n : Nat) (m : Msg) : MB :=
   ({ mb with heap := mb.heap ++ [(n, m)], nSent := mb.nSent + 1, writeFlag := none } : MB).notifyRead
 
-/-- one critical section of `send(msg, msg_number)`: entered (`writeFlag = none`) or resumed after a
-notification (`writeFlag = some true`); blocked (`some false`) has no transition. -/
-def MB.sendStep (mb : MB) (num : Option Nat) (m : Msg) : Option (SendOut × MB) :=
-  let n := match num with
-    | some k => k
-    | none => mb.nSent
+/-- one critical section of `send` once the message number is resolved: entered (`writeFlag = none`) or
+resumed after a notification (`writeFlag = some true`); blocked (`some false`) has no transition. -/
+def MB.sendCore (mb : MB) (n : Nat) (m : Msg) : Option (SendOut × MB) :=
   match mb.writeFlag with
   | some false => none
   | none =>
     if mb.closed then some (.raised .mailboxAlreadyClosed, mb)
     else if mb.forceKilled then some (.raised .mailboxKilled, mb)
     else if mb.killed then some (.dropped, mb)
-    else if n < minNext mb.next then some (.raised .invalidMessageNumber, mb)
+    else if n < minNext mb.subs then some (.raised .invalidMessageNumber, mb)
     else if mb.canWrite then some (.sent n, mb.push n m)
     else some (.waiting n, { mb with writeFlag := some false })
   | some true =>
@@ -152,35 +170,55 @@ def MB.sendStep (mb : MB) (num : Option Nat) (m : Msg) : Option (SendOut × MB) 
       else some (.dropped, { mb with writeFlag := none })
     else some (.sent n, mb.push n m)
 
+/-- `if msg_number is None: msg_number = self._n_sent` -/
+def resolveNum : Option Nat → Nat → Nat
+  | some n, _ => n
+  | none, d => d
+
+/-- `send(msg, msg_number)` -/
+def MB.sendStep (mb : MB) (num : Option Nat) (m : Msg) : Option (SendOut × MB) :=
+  mb.sendCore (resolveNum num mb.nSent) m
+
 inductive ReadOut where
   | waiting
   | killed
   | took (msgs : List Msg)
 deriving Repr, DecidableEq
 
+/-- `_read`, message not there yet: `waiting_for[i] = next_number`; `if lazy and can_fetch: notify`; wait.
+(`_can_fetch` does not look at waiter flags, so registering the waiter first is the same thing.) -/
+def MB.readWaitEnter (mb : MB) (i : Nat) (sub : Sub) : MB :=
+  ({ mb with subs := mb.subs.set i { sub with waitingFor := some sub.next, flag := some false } } : MB).notifyFetchIfCan
+
+/-- `_read`, notified but the predicate is still false: wait again -/
+def MB.readWaitAgain (mb : MB) (i : Nat) (sub : Sub) : MB :=
+  { mb with subs := mb.subs.set i { sub with flag := some false } }
+
+/-- `_read` finds the mailbox killed: `waiting_for[i] = None`, raise `MailboxKilled` -/
+def MB.readKilled (mb : MB) (i : Nat) (sub : Sub) : MB :=
+  { mb with subs := mb.subs.set i { sub with waitingFor := none, flag := none } }
+
+/-- `_read` takes `msgs`: progress, garbage collection, the two notifications -/
+def MB.readTake (mb : MB) (i : Nat) (sub : Sub) (msgs : List Msg) : MB :=
+  let subs' := mb.subs.set i { sub with next := sub.next + msgs.length, waitingFor := none, flag := none }
+  ({ mb with subs := subs', heap := gc mb.heap subs' } : MB).notifyFetchIfCan.notifyWrite
+
 /-- one critical section of `_read` for subscriber `i` -/
 def MB.readStep (mb : MB) (i : Nat) : Option (ReadOut × MB) :=
-  match mb.next[i]?, mb.readFlag[i]? with
-  | some n, some flag =>
-    match flag with
+  match mb.subs[i]? with
+  | none => none
+  | some sub =>
+    match sub.flag with
     | some false => none
-    | _ =>
-      if !(hasNum mb.heap n || mb.killed) then
+    | flag =>
+      if !(hasNum mb.heap sub.next || mb.killed) then
         match flag with
-        | none =>
-          let mb1 : MB := { mb with waitingFor := mb.waitingFor.set i (some n) }
-          let mb2 := mb1.notifyFetchIfCan
-          some (.waiting, { mb2 with readFlag := mb2.readFlag.set i (some false) })
-        | some _ => some (.waiting, { mb with readFlag := mb.readFlag.set i (some false) })
+        | none => some (.waiting, mb.readWaitEnter i sub)
+        | some _ => some (.waiting, mb.readWaitAgain i sub)
+      else if mb.killed then some (.killed, mb.readKilled i sub)
       else
-        let mb1 : MB := { mb with waitingFor := mb.waitingFor.set i none, readFlag := mb.readFlag.set i none }
-        if mb.killed then some (.killed, mb1)
-        else
-          let msgs := collect mb.heap mb.heap.length n
-          let next' := mb.next.set i (n + msgs.length)
-          let mb2 : MB := { mb1 with next := next', heap := gc mb.heap next' }
-          some (.took msgs, mb2.notifyFetchIfCan.notifyWrite)
-  | _, _ => none
+        let msgs := collect mb.heap mb.heap.length sub.next
+        some (.took msgs, mb.readTake i sub msgs)
 
 /-! ### threads -/
 
@@ -202,9 +240,14 @@ deriving Repr, DecidableEq
 
 inductive RPc where
   | read
-  | futW (pending : List Msg)
-  | done
+  | futW (pending : List Msg)      -- in `Future.result` of the head of `pending`
+  | done (rest : List Msg)         -- saw the end marker; `rest` = what was collected after it (never delivered)
   | dead (e : Err)
+deriving Repr, DecidableEq
+
+structure Reader where
+  pc : RPc
+  got : List Msg                   -- ghost: messages handed to the consumer (a future counts as its result)
 deriving Repr, DecidableEq
 
 inductive ThreadId where
@@ -218,8 +261,7 @@ structure Sys where
   mb : MB
   prog : List SrcItem              -- what the source will still produce
   spc : SPc
-  rpc : List RPc
-  got : List (List Nat)            -- ghost: values handed to each consumer
+  readers : List Reader
   sent : List (Nat × Msg)          -- ghost: everything ever pushed, in push order
   futDone : List Nat               -- futures whose result is set
   workers : List (List Nat)        -- per worker: futures it still has to complete, in order
@@ -227,12 +269,12 @@ structure Sys where
 deriving Repr, DecidableEq
 
 /-- hand collected messages to the consumer until the end marker or a future that is not done -/
-def deliver (futDone : List Nat) : List Msg → List Nat → RPc × List Nat
-  | [], g => (.read, g)
-  | .stop :: _, g => (.done, g)
-  | .plain v :: r, g => deliver futDone r (g ++ [v])
+def deliver (futDone : List Nat) : List Msg → List Msg → Reader
+  | [], g => ⟨.read, g⟩
+  | .stop :: r, g => ⟨.done r, g⟩
+  | .plain v :: r, g => deliver futDone r (g ++ [.plain v])
   | .fut id v :: r, g =>
-    if futDone.contains id then deliver futDone r (g ++ [v]) else (.futW (.fut id v :: r), g)
+    if futDone.contains id then deliver futDone r (g ++ [.fut id v]) else ⟨.futW (.fut id v :: r), g⟩
 
 def Sys.afterSend (s : Sys) : SPc := if s.mb.lazy then .gate else .fetch
 
@@ -267,24 +309,24 @@ def stepSender (s : Sys) : Option Sys :=
   | .dead _ => none
 
 def stepReader (s : Sys) (i : Nat) : Option Sys :=
-  match s.rpc[i]?, s.got[i]? with
-  | some .read, some g =>
-    match s.mb.readStep i with
-    | none => none
-    | some (.waiting, mb) => some { s with mb := mb }
-    | some (.killed, mb) => some { s with mb := mb, rpc := s.rpc.set i (.dead .mailboxKilled) }
-    | some (.took msgs, mb) =>
-      let r := deliver s.futDone msgs g
-      some { s with mb := mb, rpc := s.rpc.set i r.1, got := s.got.set i r.2 }
-  | some (.futW pend), some g =>
-    match pend with
-    | .fut id _ :: _ =>
-      if s.futDone.contains id then
-        let r := deliver s.futDone pend g
-        some { s with rpc := s.rpc.set i r.1, got := s.got.set i r.2 }
-      else none
-    | _ => none
-  | _, _ => none
+  match s.readers[i]? with
+  | none => none
+  | some r =>
+    match r.pc with
+    | .read =>
+      match s.mb.readStep i with
+      | none => none
+      | some (.waiting, mb) => some { s with mb := mb }
+      | some (.killed, mb) => some { s with mb := mb, readers := s.readers.set i { r with pc := .dead .mailboxKilled } }
+      | some (.took msgs, mb) => some { s with mb := mb, readers := s.readers.set i (deliver s.futDone msgs r.got) }
+    | .futW pend =>
+      match pend with
+      | .fut id _ :: _ =>
+        if s.futDone.contains id then some { s with readers := s.readers.set i (deliver s.futDone pend r.got) }
+        else none
+      | _ => none
+    | .done _ => none
+    | .dead _ => none
 
 def stepWorker (s : Sys) (j : Nat) : Option Sys :=
   match s.workers[j]? with
@@ -308,6 +350,7 @@ def step (s : Sys) : ThreadId → Option Sys
 structure Config where
   cap : Option Nat
   lazy : Bool
+  gateRule : GateRule
   drive : List Bool                -- one entry per subscriber
   prog : List SrcItem
   workers : List (List Nat)
@@ -315,15 +358,13 @@ structure Config where
 deriving Repr, DecidableEq
 
 def init (c : Config) : Sys :=
-  let n := c.drive.length
-  { mb := { cap := c.cap, lazy := c.lazy, heap := [], next := List.replicate n 0,
-            waitingFor := List.replicate n none, canDrive := c.drive, nSent := 0,
-            closed := false, killed := false, forceKilled := false,
-            readFlag := List.replicate n none, writeFlag := none, fetchFlag := none },
+  { mb := { cap := c.cap, lazy := c.lazy, gateRule := c.gateRule, heap := [],
+            subs := c.drive.map fun d => { next := 0, waitingFor := none, canDrive := d, flag := none },
+            nSent := 0, closed := false, killed := false, forceKilled := false,
+            writeFlag := none, fetchFlag := none },
     prog := c.prog,
     spc := if c.lazy then .gate else .fetch,
-    rpc := List.replicate n .read,
-    got := List.replicate n [],
+    readers := c.drive.map fun _ => { pc := .read, got := [] },
     sent := [],
     futDone := [],
     workers := c.workers,
@@ -350,7 +391,7 @@ def run? (s : Sys) : List ThreadId → Option Sys
     | none => none
 
 def Sys.threads (s : Sys) : List ThreadId :=
-  [.sender] ++ (List.range s.rpc.length).map .reader ++ (List.range s.workers.length).map .worker
+  [.sender] ++ (List.range s.readers.length).map .reader ++ (List.range s.workers.length).map .worker
     ++ (List.range s.killers.length).map .killer
 
 def Sys.enabled (s : Sys) : List ThreadId := s.threads.filter (fun t => (step s t).isSome)
@@ -361,12 +402,12 @@ def SPc.finished : SPc → Bool
   | _ => false
 
 def RPc.finished : RPc → Bool
-  | .done => true
+  | .done _ => true
   | .dead _ => true
   | _ => false
 
 /-- every thread has ended -/
 def Sys.final (s : Sys) : Bool :=
-  s.spc.finished && s.rpc.all RPc.finished && s.workers.all List.isEmpty && s.killers.all Option.isNone
+  s.spc.finished && s.readers.all (fun r => r.pc.finished) && s.workers.all List.isEmpty && s.killers.all Option.isNone
 
 end Strax.Mailbox
